@@ -159,6 +159,7 @@ Definition holds_offsets (a o : list N) : bool :=
         (po =? sp_pre_offset size bs nd + 1) && (v =? sp_post_offset_tree size bs nd) &&
         (tag =? (if sp_subtree_inside size nd then 1 else 2)) && (po <=? nb - 1) && (v <? nb - 1)
       else if sp_in_tree size bs nd then (po =? 0) && (tag =? 0)
+      else if sp_level nd <? bs then (po =? 0) && (tag =? 0)     (* nodes below the block level map to nothing *)
       else true end) (combine nodes (take3 rest))
   | _, _ => false
   end.
